@@ -239,10 +239,61 @@ func TestC17(t *testing.T) {
 		}
 
 		// operations
-		op := rapid.SampledFrom([]string{"cmp", "cmp", "cmp-undeclared", "in", "like", "sort"}).Draw(t, "op")
+		op := rapid.SampledFrom([]string{"cmp", "cmp", "cmp-undeclared", "in", "like", "sort", "colcmp"}).Draw(t, "op")
 		opDesc := ""
 		full := func() string { return desc() + "\nop " + opDesc }
 		switch op {
+		case "colcmp":
+			// the column against a second enum column of the same declared list, row by row, on a frame whose index
+			// is not the identity: by rank in the declared list, null never matching except under !=
+			if !declared || n < 2 || wantErr != "" {
+				break
+			}
+			shift := rapid.IntRange(1, n-1).Draw(t, "shift")
+			data2 := make([]*string, n)
+			for r := range data2 {
+				data2[r] = data[(r+shift)%n]
+			}
+			fr := qframe.New(map[string]interface{}{"e": data, "e2": data2, "id": hx.Iota(n)}, newqf.Enums(map[string][]string{"e": enumConf, "e2": enumConf}))
+			if fr.Err != nil {
+				t.Fatalf("two enum columns over one declared list: %v\n%s", fr.Err, full())
+			}
+			tab2 := hx.Table{Cols: []hx.Col{{Name: "e", Kind: hx.KEnum, S: data, Enum: enumConf}, {Name: "e2", Kind: hx.KEnum, S: data2, Enum: enumConf}, {Name: "id", Kind: hx.KInt, I: hx.Iota(n)}}}
+			comp := rapid.SampledFrom([]string{"<", "<=", ">", ">=", "=", "!="}).Draw(t, "colcomp")
+			cl := hx.ColArg("e", comp, "e2")
+			cl.Inverse = rapid.IntRange(0, 3).Draw(t, "colinv") == 0
+			// non-identity index: reversed, or every second row
+			var sel []int
+			derived := fr
+			if rapid.Bool().Draw(t, "colrev") {
+				derived = fr.Sort(qframe.Order{Column: "id", Reverse: true})
+				for r := n - 1; r >= 0; r-- {
+					sel = append(sel, r)
+				}
+			} else {
+				derived = fr.Filter(qframe.Filter{Column: "id", Comparator: "any_bits", Arg: 1}).Slice(0, n/2)
+				for r := 1; r < n; r += 2 {
+					sel = append(sel, r)
+				}
+			}
+			opDesc = fmt.Sprintf("filter e %s column e2 (e shifted by %d) inverse=%v on rows %v…", comp, shift, cl.Inverse, sel[:minInt(6, len(sel))])
+			res := derived.Filter(cl.Build(hx.KindMap(tab2)))
+			if res.Err != nil {
+				t.Fatalf("column-column filter on enum columns of one declared list failed: %v\n%s", res.Err, full())
+			}
+			var keep []int
+			for _, r := range sel {
+				if cl.Eval(tab2, r) {
+					keep = append(keep, r)
+				}
+			}
+			got, err := hx.Observe(res)
+			if err != nil {
+				t.Fatal(err)
+			}
+			if diff := hx.Diff(tab2.Rows(keep), got); diff != "" {
+				t.Fatalf("column-column filter result differs from the rank model: %s\n%s", diff, full())
+			}
 		case "cmp", "cmp-undeclared":
 			comps := []string{"<", "<=", ">", ">=", "=", "!="}
 			if !declared {
